@@ -39,6 +39,12 @@ func (o c11Obj) Get() int64           { return o.N }
 func (o c11Obj) Add(d int64) int64    { return o.N + d }
 func (o *c11Obj) Inc()                { o.N++ }
 func (o *c11Obj) SetName(s string)    { o.Name = s }
+func (o *c11Obj) Label() string {
+	if o == nil {
+		return "nil-label"
+	}
+	return o.Name
+}
 func (o *c11Obj) Sum(xs ...int64) int64 {
 	t := o.N
 	for _, x := range xs {
@@ -202,6 +208,14 @@ func c11Env(h *c11Host) *env.Env {
 		}
 		return 1, nil
 	})
+	e.Define("find2", func(name string) (*c11Obj, error) {
+		h.rec("find2", name)
+		if name == "p" {
+			return &c11Obj{N: 1, Name: "found"}, nil
+		}
+		return nil, errors.New("not found")
+	})
+	e.Define("match2", func(pat string) ([]string, map[string]int64, bool) { h.rec("match2", pat); return nil, nil, false })
 	e.Define("apply", func(f func(int64) int64, x int64) int64 { h.rec("apply", x); return f(x) + 1 })
 	e.Define("apply2", func(f func(int64, string) (int64, string)) string {
 		a, b := f(5, "s")
@@ -381,6 +395,11 @@ func c11Cases(rnd *Rand) []c11Case {
 	add("ret2(4)", "ret2("+p(int64(4))+") => "+p([]interface{}{int64(5), "two"}), "several results come back as a list")
 	add("a, b = ret2(4); [b, a]", "ret2("+p(int64(4))+") => "+p([]interface{}{"two", int64(5)}), "several results can be destructured")
 	add("ret3()", "ret3() => "+p([]interface{}{int64(7), []int64{1, 2}, nil}), "three results, typed slice and nil error kept")
+	add("find2(\"x\")", "find2("+p("x")+") => "+p([]interface{}{(*c11Obj)(nil), errors.New("not found")}), "a nil pointer among several results keeps its type")
+	add("n, err = find2(\"x\"); n.Label()", "find2("+p("x")+") => "+p("nil-label"), "a method with a pointer receiver is callable on the nil pointer a Go function returned")
+	add("n, err = find2(\"p\"); [n.Label(), err]", "find2("+p("p")+") => "+p([]interface{}{"found", nil}), "(pointer, nil error)")
+	add("match2(\"?\")", "match2("+p("?")+") => "+p([]interface{}{[]string(nil), map[string]int64(nil), false}), "nil slice and nil map among several results keep their types")
+	add("names, m, ok = match2(\"?\"); [len(names), len(m), ok]", "match2("+p("?")+") => "+p([]interface{}{int64(0), int64(0), false}), "a returned nil slice / map has length 0")
 	add("reterr(false)", "reterr("+p(false)+") => "+p([]interface{}{int64(1), nil}), "(value, nil error)")
 	add("r = reterr(true); [r[0], r[1] != nil]", "reterr("+p(true)+") => "+p([]interface{}{int64(0), true}), "(value, error) comes back as a pair")
 	// 4. Go values through the environment, containers, identity
